@@ -55,7 +55,10 @@ impl Sub for Duplicates {
       vio!("C17:unreadable-token:{}", p.label(); "{} — history {:?}", e, hist);
     }
     for b in &run.builds {
-      let dups: Vec<&String> = b.supplied.iter().filter(|(_, (n, _))| *n >= 2).map(|(k, _)| k).collect();
+      // a key counts as repeated when it was supplied twice; occurrences of exp AFTER the acknowledgement fall under the
+      // property's one latitude (each may be refused as a duplicate or ignored), so exp is a certain duplicate only
+      // when it was supplied twice before the acknowledgement
+      let dups: Vec<&String> = b.supplied.iter().filter(|(k, (n, _))| if k.as_str() == "exp" && b.exp_after_ack { b.exp_before_ack >= 2 } else { *n >= 2 }).map(|(k, _)| k).collect();
       any_dup |= !dups.is_empty();
       build_after_claim |= !b.supplied.is_empty();
       let nth = if b.builds_before == 0 { "first" } else { "later" };
@@ -91,6 +94,9 @@ impl Sub for Duplicates {
             if k == "exp" && b.ack {
               continue;
             }
+            if k.is_empty() {
+              continue; // GenericBuilder documents that a claim with an empty key is ignored: only its repetition is judged here
+            }
             if v.get(k) != Some(val) {
               vio!("C17:supplied-value-not-in-token:{}-build", nth; "supplied {} = {} but build #{} produced payload {} — history {:?}", k, val, b.builds_before + 1, v, hist);
             }
@@ -105,7 +111,7 @@ impl Sub for Duplicates {
 }
 
 /// custom keys that are distinct as strings but close to each other or to registered keys
-const NEAR_KEYS: [&str; 14] = ["customer_id", "customer_name", "customer_id ", "A", "Exp", "SUB", "iss ", "é", "e\u{301}", "a\u{0}", "aa", "ab", "nbf2", "jti_"];
+const NEAR_KEYS: [&str; 17] = ["", " ", "\u{0}", "customer_id", "customer_name", "customer_id ", "A", "Exp", "SUB", "iss ", "é", "e\u{301}", "a\u{0}", "aa", "ab", "nbf2", "jti_"];
 
 fn long_key(tail: u8) -> String {
   format!("{}{}", "k".repeat(300), tail)
@@ -176,8 +182,8 @@ pub fn run(ctx: &Ctx) -> EvidenceMeta {
   run_jobs(jobs);
   EvidenceMeta {
     rule: format!("histories over PasetoBuilder::default(): set_claim(k, v) for k in {{exp,nbf,iat,iss,sub,aud,jti,custom a,custom b}} (values distinct per occurrence), acknowledge no-expiration, set_footer, build - every sequence up to length {max_len} on v4.local (exhaustive), generated sequences up to length 40 on all 8 protocols. \
-           Oracle (model = multiset of supplied keys + position of the acknowledgement), at every build of the history: some key supplied twice => Err(DuplicateTopLevelPayloadClaim(k)) with k duplicated (or exp after the acknowledgement), never a token, also on every later build; \
-           exp supplied once after the acknowledgement => refused as duplicate or built without exp (latitude); otherwise => success and every supplied value is in the payload read back through GenericParser. \
+           Oracle (model = multiset of supplied keys + position of the acknowledgement), at every build of the history: some key supplied twice (exp: twice before the acknowledgement) => Err(DuplicateTopLevelPayloadClaim(k)) with k duplicated (or exp after the acknowledgement), never a token, also on every later build; \
+           exp supplied after the acknowledgement, any number of times => refused as duplicate or built without exp (latitude); otherwise => success and every supplied value is in the payload read back through GenericParser. \
            Non-trivial = a key is repeated or a build follows a supplied claim; distinct by history."),
     assumptions: vec![],
   }
